@@ -490,23 +490,26 @@ def commands(ctx, c):
                 p = x["path"]
             if p and p.startswith("patronus::smt::solver::SmtCommand::"):
                 built.append((p.split("::")[-1], x))
+        sid = local_id(m["scrut"])
+        ix = Index(arm["body"])
         for nm in names:
-            if len(names) == 1:
-                rows[nm] = built[0][0] if len({b for b, _ in built}) == 1 else None
+            if len({b for b, _ in built}) == 1:
+                rows[nm] = built[0][0]
+            elif len(names) == 1:
+                rows[nm] = None
             else:
-                # selected by `name == b"..."`
-                sel = None
+                # selected by `name == b"..."` on the matched token
+                sel = []
                 for vn, x in built:
-                    ix = Index(arm["body"])
-                    for a in ix.ancestors(x):
-                        if a.get("k") == "if":
-                            cs = show(a["cond"]).replace(" ", "")
-                            mm = re.search(r'name==b"([^"]+)"', cs)
-                            if mm:
-                                in_then = contains(a["then"], x)
-                                if (mm.group(1) == nm) == in_then:
-                                    sel = vn
-                rows[nm] = sel
+                    for c_, pol in psanorm.path_conditions(ix, x):
+                        if c_.get("k") == "binary" and c_["op"] in ("==", "!="):
+                            for a_, b_ in ((c_["l"], c_["r"]), (c_["r"], c_["l"])):
+                                lit = peel(b_)
+                                if sid is not None and is_local(a_, sid) and lit.get("k") == "lit" and lit.get("v") in names:
+                                    holds_for = (lit["v"] == nm) == (pol == (c_["op"] == "=="))
+                                    if holds_for:
+                                        sel.append(vn)
+                rows[nm] = sel[0] if len(set(sel)) == 1 else None
     _, wrows = c05.cmd_table(ctx, c)
     adt = c.adts.get("patronus::smt::solver::SmtCommand")
     for v in adt["variants"]:
@@ -529,18 +532,28 @@ def symbol_binding(ctx):
     why = "expected exactly one st.insert(..) in read_command, found %s" % [show(n)[:60] for n in ins]
     if ok:
         n = ins[0]
-        arms = [a for a in ix.ancestors(n) if a.get("k") == "match"]
-        ifs = [a for a in ix.ancestors(n) if a.get("k") == "if"]
-        ok = len(arms) == 1 and not ifs
-        why = "the binding is conditional (%s): re-declaring a name after pop would keep the stale symbol" % [show(a["cond"])[:60] for a in ifs]
+        conds = [a for a in ix.ancestors(n) if a.get("k") in ("match", "if", "for", "while", "loop", "closure")]
+        ok = len(conds) == 1 and conds[0].get("k") in ("match", "if") and len(ix.regions[id(n)]) == 1
+        why = "the binding is conditional (%s): re-declaring a name after pop would keep the stale symbol" % [show(a.get("cond", a.get("scrut", {})))[:60] for a in conds]
         if ok:
-            arm = [a for a in arms[0]["arms"] if contains(a["body"], n)][0]
-            vs = sorted(vname(variant_pat(alt)[0]) for alt in pat_alts(arm["pat"]) if variant_pat(alt))
-            binds = {i for _, i in pat_bindings(arm["pat"])}
+            a = conds[0]
+            if a.get("k") == "match":
+                pat = [x for x in a["arms"] if contains(x["body"], n)][0]["pat"]
+                guard = "guard" in [x for x in a["arms"] if contains(x["body"], n)][0]
+            else:
+                c_ = peel(a["cond"])
+                pat = c_["pat"] if c_.get("k") == "letexpr" and contains(a["then"], n) else {"k": "pwild"}
+                guard = c_.get("k") != "letexpr"
+            vs = sorted(vname(variant_pat(alt)[0]) for alt in pat_alts(pat) if variant_pat(alt))
+            binds = {i for _, i in pat_bindings(pat)}
             val = peel(n["args"][1])
-            key = show(n["args"][0]).replace(" ", "")
-            ok = vs == ["DeclareConst", "DefineConst"] and val.get("k") == "local" and val["id"] in binds and key == "ctx.get_symbol_name(%s).unwrap().into()" % val["name"]
-            why = "the symbol-table update is `%s` in the arm for %s" % (show(n)[:100], vs)
+            kb, kms = chain(n["args"][0])
+            if [x[0] for x in kms] == ["into"] and kb.get("k") == "local":
+                kb, kms2 = chain(resolve(kb))
+                kms = kms2 + kms
+            key_ok = [x[0] for x in kms] == ["get_symbol_name", "unwrap", "into"] and val.get("k") == "local" and is_local(kms[0][1][0], val["id"])
+            ok = not guard and vs == ["DeclareConst", "DefineConst"] and val.get("k") == "local" and val["id"] in binds and key_ok
+            why = "the symbol-table update is `%s` in the branch for %s" % (show(n)[:100], vs)
     ctx.inst("R14.6", "read_command:bind-declared-symbol", ok, f["span"], why, sample=show(ins[0])[:100] if ins else None)
 
 
